@@ -202,7 +202,7 @@ pub struct OpStats {
 
 /// install a context on the current thread
 pub fn install(tid: usize, sched: Option<Arc<Sched>>, plan: PreemptPlan) {
-    TL.with(|c| {
+    let _ = TL.try_with(|c| {
         let mut c = c.borrow_mut();
         *c = ThreadCtx::default();
         c.active = true;
@@ -214,7 +214,7 @@ pub fn install(tid: usize, sched: Option<Arc<Sched>>, plan: PreemptPlan) {
 }
 
 pub fn uninstall() -> ThreadCtx {
-    TL.with(|c| std::mem::take(&mut *c.borrow_mut()))
+    TL.try_with(|c| std::mem::take(&mut *c.borrow_mut())).unwrap_or_default()
 }
 
 pub fn begin_op(faults: Vec<Fault>, record_trace: bool, cap: u64) {
@@ -269,7 +269,9 @@ pub fn take_reenter() -> Option<Box<dyn FnOnce()>> {
 /// The funnel.  Returns the (possibly faulted) result bits.
 #[inline]
 pub fn event(k: u8, a: u64, b: u64, r: u64) -> u64 {
-    TL.with(|cell| {
+    // `try_with`: a call made while this thread's locals are being destroyed (from
+    // the destructor of a caller's thread-local) passes straight through
+    TL.try_with(|cell| {
         let mut c = match cell.try_borrow_mut() {
             Ok(c) => c,
             // re-entrancy (e.g. Debug formatting inside a logger write): pass through
@@ -391,11 +393,12 @@ pub fn event(k: u8, a: u64, b: u64, r: u64) -> u64 {
         }
         out
     })
+    .unwrap_or(r)
 }
 
 /// record a logger write (content hash only; never part of a verdict)
 pub fn note_log(h: u64) {
-    TL.with(|cell| {
+    let _ = TL.try_with(|cell| {
         if let Ok(mut c) = cell.try_borrow_mut() {
             c.log_hash = mix(c.log_hash, h);
         }
